@@ -150,24 +150,26 @@ pub const ITEMS: &[Item] = &[
     Method { ty: "Version", tr: "", name: "diff" },
     Method { ty: "VersionDiff", tr: "Display", name: "fmt" },
     Method { ty: "Version", tr: "Display", name: "fmt" },
+    // the 64-bit conversions first: `.into()` / `Version::from(..)` on a tuple resolves to them in the translation
+    Method { ty: "Version", tr: "From<(u64,u64,u64)>", name: "from" },
+    Method { ty: "Version", tr: "From<(u64,u64,u64,u64)>", name: "from" },
     Method { ty: "Version", tr: "From<(u8,u8,u8)>", name: "from" },
     Method { ty: "Version", tr: "From<(u8,u8,u8,u8)>", name: "from" },
     Method { ty: "Version", tr: "From<(u16,u16,u16)>", name: "from" },
     Method { ty: "Version", tr: "From<(u16,u16,u16,u16)>", name: "from" },
     Method { ty: "Version", tr: "From<(u32,u32,u32)>", name: "from" },
     Method { ty: "Version", tr: "From<(u32,u32,u32,u32)>", name: "from" },
-    Method { ty: "Version", tr: "From<(u64,u64,u64)>", name: "from" },
-    Method { ty: "Version", tr: "From<(u64,u64,u64,u64)>", name: "from" },
     Method { ty: "Version", tr: "From<(usize,usize,usize)>", name: "from" },
     Method { ty: "Version", tr: "From<(usize,usize,usize,usize)>", name: "from" },
+    // the 64-bit conversions first: `.into()` / `Version::from(..)` on a tuple resolves to them in the translation
+    Method { ty: "Version", tr: "From<(i64,i64,i64)>", name: "from" },
+    Method { ty: "Version", tr: "From<(i64,i64,i64,i64)>", name: "from" },
     Method { ty: "Version", tr: "From<(i8,i8,i8)>", name: "from" },
     Method { ty: "Version", tr: "From<(i8,i8,i8,i8)>", name: "from" },
     Method { ty: "Version", tr: "From<(i16,i16,i16)>", name: "from" },
     Method { ty: "Version", tr: "From<(i16,i16,i16,i16)>", name: "from" },
     Method { ty: "Version", tr: "From<(i32,i32,i32)>", name: "from" },
     Method { ty: "Version", tr: "From<(i32,i32,i32,i32)>", name: "from" },
-    Method { ty: "Version", tr: "From<(i64,i64,i64)>", name: "from" },
-    Method { ty: "Version", tr: "From<(i64,i64,i64,i64)>", name: "from" },
     Method { ty: "Version", tr: "From<(isize,isize,isize)>", name: "from" },
     Method { ty: "Version", tr: "From<(isize,isize,isize,isize)>", name: "from" },
     Derive { ty: "Predicate", tr: "PartialEq" },
